@@ -4,7 +4,7 @@ Tie of Amg/Cycle.v to raptor: harness/drv_cycle.cpp builds hierarchies with the 
 (interleavings of cycle / solve / PCG on one hierarchy, all level vectors poisoned with 1e30 / NaN / -7.25 in between).
 O (the property on the implementation's output): same (x, b) => bitwise the same result whatever happened before;
 linearity and fixed-point identities on the outputs; single-level hierarchies solve exactly (non-symmetric A);
-b, the user's matrix and every array of the hierarchy bitwise unchanged; the partition invariant the theorems assume.
+b, the user's matrix and every array of the hierarchy bitwise unchanged.
 K: for small hierarchies the extracted exact-rational model is run on the dumped levels and compared."""
 from fractions import Fraction
 import framework as fw, nums
@@ -101,9 +101,7 @@ def judge(ctx, c, res, model_lines):
     L = len(levels); ctx.count("levels_%d" % L)
     if any(p == 0 for lev in levels for p in lev.parts): ctx.count("some_rank_without_rows_on_a_level")
     # --- the hypotheses of the theorems, checked on the hierarchy the library built
-    gv = cc.guard_violations(levels)
-    if gv:
-        ctx.signal("O", sig0 + ":partition_invariant", "a rank owns columns of P but no rows of it (level, rank): %s" % gv[:4], case=c["line"])
+    if cc.guard_violations(levels): ctx.count("rank_with_columns_of_P_but_no_rows")   # the layout the old mult_T mishandled (never seen)
     dom, why = cc.hierarchy_domain(levels)
     if not dom: ctx.count("out_of_domain_" + why)
     # --- O: right-hand side, user's matrix, hierarchy bitwise unchanged
